@@ -87,4 +87,13 @@ def Reg.step (r : Reg) : Op → Reg
 /-- The registry after a history, starting from nothing. -/
 def Reg.run (ops : List Op) : Reg := ops.foldl Reg.step Reg.empty
 
+/-- What is to hold of an optimizer's registration state: no parameter is
+registered twice, `configure_parameter` ran exactly once for every registered
+parameter, and a parameter that was configured without being registered is one
+the optimizer cannot configure (the call threw). -/
+structure Opt.wf (valid : PId → Bool) (o : Opt) : Prop where
+  nodup : o.params.Nodup
+  once : ∀ p ∈ o.params, o.configCount p = 1
+  failed : ∀ p ∈ o.configs, p ∉ o.params → o.needsStats = true ∧ valid p = false
+
 end Primitiv.Registry
